@@ -258,7 +258,7 @@ def relaxation_texts(timeout_ms):
 def main():
     t, sd = tier(), seed()
     rep = Report(PROP)
-    tmo = 20000 if t == "quick" else 120000
+    tmo = 60000 if t == "quick" else 300000
     try:
         obs, wit = text_channel(tmo, 8 if t == "quick" else 12)
     except Exception as e:  # translator failures are harness errors, never passes
